@@ -1198,3 +1198,19 @@ MUTANTS += [
  dict(name='c10-benign-getpoint-sign-reversed-compare-minus-one', prop='C10', benign=True, expect='',
       edits=[('include/bls12_381/curve.hpp', 'bool ywasgreater = (BaseField::compare(y, negy) == 1);', 'bool ywasgreater = (BaseField::compare(negy, y) == -1);')]),
 ]
+# ---- round 10
+MUTANTS += [
+ dict(name='seed-C01-final-exponentiation-static-temporaries-c20', prop='C20', patch='seeded/C01-final-exponentiation-static-temporaries/patch.diff', expect='staticlocal'),
+ dict(name='seed-C01-final-exponentiation-static-temporaries-c01', prop='C01', novd=True, expect='', patch='seeded/C01-final-exponentiation-static-temporaries/patch.diff'),
+ dict(name='seed-C04-fq2-frobenius-raw-subtract', prop='C04', patch='seeded/C04-fq2-frobenius-raw-subtract-noncanonical-zero/patch.diff', expect='R-FIELDLAYER'),
+ dict(name='seed-C05-multiply2-identity-shortcut', prop='C05', patch='seeded/C05-multiply2-identity-shortcut-leaves-result-unwritten/patch.diff', expect='R-DEFOUT/curve'),
+ dict(name='seed-C07-exponentiate-gt-base-pointer-aliases-result', prop='C07', patch='seeded/C07-exponentiate-gt-base-pointer-aliases-result/patch.diff', expect='out==a'),
+ dict(name='seed-C08-c-api-pairing-sum-blocks', prop='C08', patch='seeded/C08-c-api-pairing-sum-blocks-of-eight/patch.diff', expect='cwrapper'),
+ dict(name='seed-C08-c-api-pairing-sum-blocks-c19', prop='C19', patch='seeded/C08-c-api-pairing-sum-blocks-of-eight/patch.diff', expect='R-WRAP/W1'),
+ dict(name='seed-C10-fq2-lexicographically-largest', prop='C10', patch='seeded/C10-fq2-lexicographically-largest-drops-c0-fallback/patch.diff', expect='getpoint-sign'),
+ dict(name='seed-C10-fq2-lexicographically-largest-c09', prop='C09', patch='seeded/C10-fq2-lexicographically-largest-drops-c0-fallback/patch.diff', expect='Fq2'),
+ dict(name='seed-C12-qualifykey-merge-trailing-slots', prop='C12', patch='seeded/C12-qualifykey-merge-trailing-slots-ignore-omit-all/patch.diff', expect='R-HIDDEN/all'),
+ dict(name='seed-C16-lqibe-decrypt-zero-length', prop='C16', patch='seeded/C16-lqibe-decrypt-zero-length-shortcut/patch.diff', expect='VIOLATION property=C16'),
+ dict(name='seed-C19-g2-unmarshal-helper', prop='C19', patch='seeded/C19-g2-unmarshal-helper-passes-compressed-as-checked/patch.diff', expect='R-WRAP'),
+ dict(name='seed-C20-g2prepared-mutable-read-cursor', prop='C20', patch='seeded/C20-g2prepared-mutable-read-cursor/patch.diff', expect='R-EFFECT/const'),
+]
